@@ -131,3 +131,147 @@ impl ValueGen {
 		out
 	}
 }
+
+/// Grammar-based generator of JSON *texts* (not values): random insignificant
+/// whitespace, every escape form, raw multi-byte characters, surrogate pairs,
+/// grammar-derived number spellings, duplicate keys, many distinct keys.
+pub struct DocGen {
+	pub key_pool: Vec<String>,
+	pub max_children: usize,
+}
+
+impl DocGen {
+	pub fn new() -> Self {
+		DocGen {
+			key_pool: vec!["a", "b", "k", "", "key", "\\u00e9", "\\n", "\u{e9}\u{10000}", "x1", "x2", "x3", "x4", "x5", "a"].into_iter().map(String::from).collect(),
+			max_children: 5,
+		}
+	}
+
+	pub fn ws(&self, rng: &mut Rng, out: &mut String) {
+		match rng.below(8) {
+			0 => out.push(' '),
+			1 => out.push('\n'),
+			2 => out.push_str("\t \r\n"),
+			3 => out.push_str("  "),
+			_ => (),
+		}
+	}
+
+	pub fn string_body(&self, rng: &mut Rng, out: &mut String) {
+		for _ in 0..rng.below(7) {
+			match rng.below(14) {
+				0 => out.push_str(*rng.pick(&["\\\"", "\\\\", "\\/", "\\b", "\\f", "\\n", "\\r", "\\t"])),
+				1 => {
+					// \uXXXX of a BMP non-surrogate scalar, random hex case
+					let mut c = rng.below(0x10000) as u32;
+					if (0xd800..0xe000).contains(&c) {
+						c -= 0x800;
+					}
+					let h = format!("{:04x}", c);
+					out.push_str("\\u");
+					for ch in h.chars() {
+						out.push(if rng.chance(1, 2) { ch.to_ascii_uppercase() } else { ch });
+					}
+				}
+				2 => {
+					// escaped surrogate pair of a random supplementary scalar
+					let c = 0x10000 + rng.below(0x100000) as u32;
+					let hi = 0xd800 + ((c - 0x10000) >> 10);
+					let lo = 0xdc00 + ((c - 0x10000) & 0x3ff);
+					out.push_str(&format!("\\u{:04X}\\u{:04x}", hi, lo));
+				}
+				3 => out.push(char::from_u32(0x80 + rng.below(0x780) as u32).unwrap()),
+				4 => {
+					let mut c = 0x800 + rng.below(0xf800) as u32;
+					if (0xd800..0xe000).contains(&c) {
+						c += 0x800;
+					}
+					out.push(char::from_u32(c).unwrap());
+				}
+				5 => out.push(char::from_u32(0x10000 + rng.below(0x100000) as u32).unwrap()),
+				6 => out.push(*rng.pick(&['\u{7f}', '\u{2028}', '\u{2029}', '\u{feff}', '\u{fffd}', '\u{ffff}', '/', '\'', ' '])),
+				_ => out.push((b'a' + rng.below(26) as u8) as char),
+			}
+		}
+	}
+
+	pub fn value(&self, rng: &mut Rng, depth: usize, out: &mut String) {
+		let k = if depth == 0 { rng.below(5) } else { rng.below(8) };
+		match k {
+			0 => out.push_str("null"),
+			1 => out.push_str(if rng.chance(1, 2) { "true" } else { "false" }),
+			2 | 3 => out.push_str(&number_spelling(rng)),
+			4 => {
+				out.push('"');
+				self.string_body(rng, out);
+				out.push('"');
+			}
+			5 | 6 => {
+				out.push('[');
+				self.ws(rng, out);
+				let n = rng.below(self.max_children + 1);
+				for i in 0..n {
+					if i > 0 {
+						out.push(',');
+						self.ws(rng, out);
+					}
+					self.value(rng, depth - 1, out);
+					self.ws(rng, out);
+				}
+				out.push(']');
+			}
+			_ => {
+				out.push('{');
+				self.ws(rng, out);
+				let n = rng.below(self.max_children + 3);
+				for i in 0..n {
+					if i > 0 {
+						out.push(',');
+						self.ws(rng, out);
+					}
+					out.push('"');
+					if rng.chance(3, 4) {
+						out.push_str(rng.pick(&self.key_pool[..]).as_str());
+					} else {
+						self.string_body(rng, out);
+					}
+					out.push('"');
+					self.ws(rng, out);
+					out.push(':');
+					self.ws(rng, out);
+					self.value(rng, depth - 1, out);
+					self.ws(rng, out);
+				}
+				out.push('}');
+			}
+		}
+	}
+
+	pub fn doc(&self, rng: &mut Rng, depth: usize) -> String {
+		let mut s = String::new();
+		self.ws(rng, &mut s);
+		self.value(rng, depth, &mut s);
+		self.ws(rng, &mut s);
+		s
+	}
+
+	/// one random edit: delete / insert / replace a character, or truncate
+	pub fn damage(&self, rng: &mut Rng, doc: &str) -> String {
+		let mut cs: Vec<char> = doc.chars().collect();
+		let extra = ['"', '\\', ',', ':', '[', ']', '{', '}', '0', '1', '-', '+', '.', 'e', 'E', 'n', 't', 'f', 'u', ' ', '\n', 'x', '\u{c}', '\u{b}', '\u{a0}', '\u{feff}', '\u{0}', '\u{1f}', '/', 'a', 'D', '8', 'C'];
+		if cs.is_empty() {
+			return rng.pick(&extra).to_string();
+		}
+		let i = rng.below(cs.len());
+		match rng.below(4) {
+			0 => {
+				cs.remove(i);
+			}
+			1 => cs.insert(i, *rng.pick(&extra)),
+			2 => cs[i] = *rng.pick(&extra),
+			_ => cs.truncate(i),
+		}
+		cs.into_iter().collect()
+	}
+}
